@@ -74,3 +74,10 @@ Print Assumptions c12_pipe_pep440.
 Print Assumptions c12_pipe_reemits.
 Print Assumptions c12_invalid_schema_refused.
 Print Assumptions c12_not_a_document_refused.
+
+(* THE TIE OF THE MODEL'S CONSTANT TABLES TO THE SOURCE: Gen/TablesSrc.v is regenerated from /repo by tools/tables2coq.py on every run *)
+From ZV Require Import Timestamp Render Convert TablesSrc TablesTie.
+Theorem c12_timestamp_patterns_as_in_source : forall p,
+  is_valid_timestamp_pattern p = (existsb (str_eqb p) src_valid_timestamp_patterns || match p with c :: _ => N.eqb c 37 | [] => false end)%bool.
+Proof. intros p. unfold is_valid_timestamp_pattern. rewrite valid_patterns_as_source. reflexivity. Qed.
+Print Assumptions c12_timestamp_patterns_as_in_source.
